@@ -230,8 +230,9 @@ def callFn (fn : String) (args : List (Value F)) (st : FnState F) : Outcome (Val
       let m2 := ops.add st.sM2 (ops.mul delta (ops.sub x mean))
       let var := ops.div m2 (ops.sub n (ops.ofInt 1))
       let st' := { st with sN := n, sMean := mean, sM2 := m2, sVar := var }
-      if ops.lt n (ops.ofInt 2) || ops.eq var (ops.ofInt 0) then (.ok (.float (ops.ofInt 0)), st')
-      else (.ok (.float (ops.div (ops.abs (ops.sub x mean)) (ops.sqrt var))), st')
+      let res := if ops.lt n (ops.ofInt 2) || ops.eq var (ops.ofInt 0) then ops.ofInt 0
+        else ops.div (ops.abs (ops.sub x mean)) (ops.sqrt var)
+      (.ok (.float res), st')
     | _ => (.err, st)
   else if fn = "spread" then
     match args with
